@@ -273,6 +273,7 @@ def main(argv=None):
     # Obligations that are not produced by the symbolic executor (regular-language inclusions, pyvc/reglang.py): the
     # module generates them from the tree under check, discharges them itself and replays every counter-example natively.
     direct_units = 0
+    direct_notes = []
     if not a.unit or any(re.search(a.unit, "%s/direct/%s" % (pid, dm)) for dm in spec.get("direct", [])):
         for dm in spec.get("direct", []):
             try:
@@ -293,6 +294,7 @@ def main(argv=None):
                 crashes.append(("direct:" + dm, info["crash"]))
                 continue
             direct_units += info.get("units", 0)
+            direct_notes.extend(info.get("notes", []))
             functions.update(info.get("functions", []))
             real = [o for o in info["obligations"] if not o.get("canary") and not o.get("bounded")]
             if not real:
@@ -432,6 +434,8 @@ def main(argv=None):
         "explanation": spec.get("explanation", ""),
         "configs": spec.get("configs", {}).get(tier, spec.get("configs", {})) if isinstance(spec.get("configs"), dict) else spec.get("configs"),
     }
+    if direct_notes:
+        cov["direct_modules"] = {"modules": spec.get("direct", []), "notes": direct_notes}
     if bounded_info is not None:
         cov["bounded"] = {k: v for k, v in bounded_info.items() if k != "violations"}
         cov["evaluations"] = bounded_info.get("evaluations", 0)
